@@ -397,6 +397,7 @@ class FnTranslator:
         self.records = set(self.cfg.get("records", ()))
         self.record_attrs = {}        # dotted path -> lean name
         self.opaque = dict(self.cfg.get("opaque", {}))
+        self.opaque_targets = dict(self.cfg.get("opaque_targets", {}))
         self.opaque_params = []       # (lean name, shape, description)
         self.mut_params = []          # python names of list params that are mutated
 
@@ -634,6 +635,17 @@ class FnTranslator:
         # opaque call: the assigned names become parameters of the translated function
         if isinstance(value, ast.Call) and ast.unparse(value.func) in self.opaque:
             return self.opaque_assign(st, value, targets, env, rest)
+        # opaque target: `name = <anything>` where the configuration declares `name` opaque (a value computed
+        # with floats); the name becomes a parameter
+        if len(targets) == 1 and isinstance(targets[0], ast.Name) and targets[0].id in self.opaque_targets:
+            if st not in self.node.body:
+                self.fail(st, "opaque assignment outside the top level of the function body")
+            tg = targets[0]
+            sh = self.opaque_targets[tg.id]
+            ln = self.param_name(tg.id)
+            self.opaque_params.append((ln, sh, "`" + ast.unparse(st).replace("\n", " ") + "`"))
+            env.d[tg.id] = (ln, sh)
+            return rest(env)
         # subscript store  l[i] = v
         if len(targets) == 1 and isinstance(targets[0], ast.Subscript):
             return self.subscript_store(st, targets[0], value, env, rest)
@@ -665,7 +677,9 @@ class FnTranslator:
             env.d[tg.id] = (ln, shapes[0])
         elif isinstance(tg, ast.Tuple) and len(tg.elts) == len(shapes) and all(isinstance(e, ast.Name) for e in tg.elts):
             for e, sh in zip(tg.elts, shapes):
-                if e.id == "_":
+                if e.id == "_" or sh is None:      # None: a component that is not an integer (never read as one)
+                    if e.id != "_":
+                        env.d[e.id] = None
                     continue
                 ln = self.param_name(e.id)
                 self.opaque_params.append((ln, sh, desc))
